@@ -328,7 +328,7 @@ func (w *World) contractFor(fn *ssa.Function) *Contract {
 			qm = "(" + star + pp + "." + recv + ")" + key[i+1:]
 		}
 		for _, c := range w.all {
-			if c.Kind == "extern" && c.Target == qm {
+			if (c.Kind == "extern" || c.Kind == "model") && c.Target == qm {
 				return c
 			}
 		}
